@@ -186,6 +186,9 @@ def selftest(ctx):
 
 
 def run(ctx):
+    from spverif.ref import enums as _enums
+    if ctx.shard[0] == 0:
+        _enums.check(ctx, "code_tables", ['spacepackets.cfdp.pdu.file_data', 'spacepackets.cfdp.defs.SegmentationControl', 'spacepackets.cfdp.defs.SegmentMetadataFlag'])
     from spverif.san import scribble
     scribble.install()
     r = ctx.rng
